@@ -21,7 +21,7 @@ use crate::{
     ff::{
         ArrayAccess,
         boolean::Boolean,
-        boolean_array::{BA16, BA32, BA256},
+        boolean_array::{BA3, BA8, BA16, BA32, BA256},
     },
     protocol::{
         RecordId,
@@ -84,12 +84,14 @@ macro_rules! vec_share {
         }
     };
 }
+vec_share!(3, BA3);
+vec_share!(8, BA8);
 vec_share!(16, BA16);
 vec_share!(32, BA32);
 vec_share!(256, BA256);
 
 /// Share `values[lane]` (each `width` bits) among three helpers: result[h] = bit-decomposed vector share.
-fn share_bits<S: VecShare<N>, const N: usize>(values: &[u128], width: usize, r: &mut Rng) -> [BitDecomposed<S>; 3] {
+pub fn share_bits<S: VecShare<N>, const N: usize>(values: &[u128], width: usize, r: &mut Rng) -> [BitDecomposed<S>; 3] {
     let mut out: [Vec<S>; 3] = [Vec::new(), Vec::new(), Vec::new()];
     for k in 0..width {
         let mut s: [Vec<bool>; 3] = [Vec::new(), Vec::new(), Vec::new()];
@@ -108,7 +110,7 @@ fn share_bits<S: VecShare<N>, const N: usize>(values: &[u128], width: usize, r: 
 }
 
 /// (left, right) integers per lane
-fn open_bits<S: VecShare<N>, const N: usize>(bits: &BitDecomposed<S>) -> Vec<(u128, u128)> {
+pub fn open_bits<S: VecShare<N>, const N: usize>(bits: &BitDecomposed<S>) -> Vec<(u128, u128)> {
     let mut v = vec![(0u128, 0u128); N];
     for (k, s) in bits.iter().enumerate() {
         let (l, r) = s.lanes();
@@ -160,6 +162,8 @@ macro_rules! vec_circuit {
     };
 }
 vec_circuit!(circ_1, 1);
+vec_circuit!(circ_3, 3);
+vec_circuit!(circ_8, 8);
 vec_circuit!(circ_16, 16);
 vec_circuit!(circ_32, 32);
 vec_circuit!(circ_256, 256);
@@ -223,7 +227,8 @@ impl Scenario for CircScenario {
 
     fn generate(&self, seed: u64, tier: Tier) -> Value {
         let mut r = Rng::sub(seed, if self.tampered { 3_01 } else { 7_01 });
-        let lanes = r.pick(&[1usize, 1, 16, 32, 256]);
+        // 3 and 8 lanes exist in the semi-honest mode only
+        let lanes = if self.tampered { r.pick(&[1usize, 1, 16, 32, 256]) } else { r.pick(&[1usize, 1, 3, 8, 16, 32, 256]) };
         let ops: Vec<&str> = if lanes == 1 { VEC_OPS.iter().chain(SCALAR_OPS.iter()).copied().collect() } else { VEC_OPS.to_vec() };
         let ops: Vec<&str> = if self.tampered { ops.into_iter().filter(|o| *o != "xor_free").collect() } else { ops };
         let op = r.pick(&ops);
@@ -231,7 +236,7 @@ impl Scenario for CircScenario {
         let wx = if exhaustive { r.range(1, 4) } else { r.pick(&[1usize, 2, 3, 5, 8, 16, 20, 32, 64, 100, 120]) };
         // unequal operand widths only where the code documents support for them
         let wy = if ["or", "and", "xor_free"].contains(&op) || exhaustive || r.chance(2, 3) { wx } else { r.pick(&[1usize, 3, 8, 16, 32, 64, 120]) };
-        let malicious = self.tampered || r.chance(1, 2);
+        let malicious = self.tampered || (![3usize, 8].contains(&lanes) && r.chance(1, 2));
         // records: enough to enumerate all operand pairs when exhaustive
         let pairs = if exhaustive { 1usize << (2 * wx) } else { 0 };
         let records = if exhaustive { pairs.div_ceil(lanes).max(1) } else { r.range(1, if tier == Tier::Quick { 12 } else { 40 }) };
@@ -253,6 +258,8 @@ impl Scenario for CircScenario {
     fn exec(&self, p: &Value, explicit: Option<Vec<u32>>) -> RunRes {
         match pu(p, "lanes") {
             1 => exec_n::<AdditiveShare<Boolean>, 1>(p, explicit, self.tampered),
+            3 => exec_n::<AdditiveShare<Boolean, 3>, 3>(p, explicit, self.tampered),
+            8 => exec_n::<AdditiveShare<Boolean, 8>, 8>(p, explicit, self.tampered),
             16 => exec_n::<AdditiveShare<Boolean, 16>, 16>(p, explicit, self.tampered),
             32 => exec_n::<AdditiveShare<Boolean, 32>, 32>(p, explicit, self.tampered),
             256 => exec_n::<AdditiveShare<Boolean, 256>, 256>(p, explicit, self.tampered),
@@ -275,8 +282,26 @@ trait Dispatch<const N: usize>: VecShare<N> {
     fn run(p: &Value, spec: &SchedSpec, xs: &[Vec<u128>], ys: &[Vec<u128>], site: Option<Site>) -> OneRun;
 }
 
+/// `both`: the width is supported in the semi-honest and in the proof-carrying mode; `sh`: semi-honest only (3 and 8 lanes)
+macro_rules! run_modes {
+    (both, $malicious:ident, $world:ident, $input:ident, $ty:ty, $body:ident) => {
+        if $malicious {
+            $world.malicious($input, |ctx, inp: Vec<(BitDecomposed<$ty>, BitDecomposed<$ty>)>| async move { $body!(ctx, inp) }).await;
+        } else {
+            $world.semi_honest($input, |ctx, inp: Vec<(BitDecomposed<$ty>, BitDecomposed<$ty>)>| async move { $body!(ctx, inp) }).await;
+        }
+    };
+    (sh, $malicious:ident, $world:ident, $input:ident, $ty:ty, $body:ident) => {
+        assert!(!$malicious, "harness: this vector width has no proof-carrying mode");
+        $world.semi_honest($input, |ctx, inp: Vec<(BitDecomposed<$ty>, BitDecomposed<$ty>)>| async move { $body!(ctx, inp) }).await;
+    };
+}
+
 macro_rules! dispatch {
     ($n:literal, $ty:ty, $circ:ident) => {
+        dispatch!($n, $ty, $circ, both);
+    };
+    ($n:literal, $ty:ty, $circ:ident, $mode:ident) => {
         impl Dispatch<$n> for $ty {
             fn run(p: &Value, spec: &SchedSpec, xs: &[Vec<u128>], ys: &[Vec<u128>], site: Option<Site>) -> OneRun {
                 let op = ps(p, "op").to_string();
@@ -335,11 +360,7 @@ macro_rules! dispatch {
                                 log.lock().unwrap().insert(h, r.map(|v| v.iter().map(open_bits::<$ty, $n>).collect()).map_err(|e| e.to_string()));
                             }};
                         }
-                        if malicious {
-                            world.malicious(input, |ctx, inp: Vec<(BitDecomposed<$ty>, BitDecomposed<$ty>)>| async move { body!(ctx, inp) }).await;
-                        } else {
-                            world.semi_honest(input, |ctx, inp: Vec<(BitDecomposed<$ty>, BitDecomposed<$ty>)>| async move { body!(ctx, inp) }).await;
-                        }
+                        run_modes!($mode, malicious, world, input, $ty, body);
                     }
                 });
                 let t = tamper.log.lock().unwrap();
@@ -350,6 +371,8 @@ macro_rules! dispatch {
 }
 
 dispatch!(1, AdditiveShare<Boolean>, scalar_circuit);
+dispatch!(3, AdditiveShare<Boolean, 3>, circ_3, sh);
+dispatch!(8, AdditiveShare<Boolean, 8>, circ_8, sh);
 dispatch!(16, AdditiveShare<Boolean, 16>, circ_16);
 dispatch!(32, AdditiveShare<Boolean, 32>, circ_32);
 dispatch!(256, AdditiveShare<Boolean, 256>, circ_256);
@@ -363,7 +386,7 @@ fn exec_n<S: Dispatch<N>, const N: usize>(p: &Value, explicit: Option<Vec<u32>>,
     if !ok_op || wx == 0 || wx > 120 || wy == 0 || wy > 120 || records == 0 || records > 4096 || !max_mults.is_power_of_two()
         || (!batched && max_mults < records) || !pu(knobs, "active").is_power_of_two() || pu(knobs, "active") < 2 || pu(knobs, "read_size") == 0
         || (["or", "and", "xor_free"].contains(&op.as_str()) && wx != wy) || (exhaustive && (wx > 4 || wx != wy))
-        || (tampered && (!malicious || pu(p, "corrupt") > 2))
+        || (tampered && (!malicious || pu(p, "corrupt") > 2)) || (malicious && (N == 3 || N == 8))
     {
         return RunRes::invalid("circ: plan");
     }
